@@ -5,8 +5,10 @@ import (
 	"fmt"
 	kvredis "github.com/acquirecloud/golibs/kvs/redis"
 	"github.com/alicebob/miniredis/v2"
+	"github.com/alicebob/miniredis/v2/server"
 	"github.com/go-redis/redis/v8"
 	"math/rand"
+	"strconv"
 	"strings"
 	"sync"
 	"sync/atomic"
@@ -121,12 +123,15 @@ func driveKvWide(opt *Options) error {
 	{
 		var st kvs.Storage
 		if opt.Variant == "redis" {
-			be, err := newRedisBackend()
+			// a server of its own that answers SCAN the way a real one may: a few keys examined per call (COUNT is a
+			// hint), so that many replies carry no key at all and a cursor that says "go on"
+			mr, err := miniredis.Run()
 			if err != nil {
 				return err
 			}
-			st = be.st
-			defer redisPool.Put(be)
+			defer mr.Close()
+			mr.Server().SetPreHook(pagedScanHook(mr, 7))
+			st = kvredis.New(&redis.Options{Addr: mr.Addr()})
 		} else {
 			st = inmem.New()
 		}
@@ -588,4 +593,77 @@ func driveKvFar(opt *Options) error {
 		redisPool.Put(be)
 	}
 	return nil
+}
+
+
+// pagedScanHook serves SCAN cursor [MATCH p] [COUNT n] over the sorted key space, `page` keys examined per call
+// (patterns of the shapes this driver uses: literals, * and ?).
+func pagedScanHook(m *miniredis.Miniredis, page int) server.Hook {
+	var match func(p, k string) bool
+	match = func(p, k string) bool {
+		for len(p) > 0 {
+			switch p[0] {
+			case '*':
+				for i := 0; i <= len(k); i++ {
+					if match(p[1:], k[i:]) {
+						return true
+					}
+				}
+				return false
+			case '?':
+				if len(k) == 0 {
+					return false
+				}
+			default:
+				if len(k) == 0 || k[0] != p[0] {
+					return false
+				}
+			}
+			p, k = p[1:], k[1:]
+		}
+		return len(k) == 0
+	}
+	return func(c *server.Peer, cmd string, args ...string) bool {
+		if strings.ToUpper(cmd) != "SCAN" || len(args) == 0 {
+			return false
+		}
+		cursor, err := strconv.Atoi(args[0])
+		if err != nil {
+			return false
+		}
+		pat := "*"
+		for i := 1; i+1 < len(args); i += 2 {
+			if strings.ToLower(args[i]) == "match" {
+				pat = args[i+1]
+			}
+		}
+		if strings.ContainsAny(pat, "[]\\{}") {
+			return false // not a shape this hook knows: the server's own SCAN answers
+		}
+		keys := m.Keys()
+		if cursor > len(keys) {
+			cursor = len(keys)
+		}
+		end := cursor + page
+		if end > len(keys) {
+			end = len(keys)
+		}
+		var out []string
+		for _, k := range keys[cursor:end] {
+			if match(pat, k) {
+				out = append(out, k)
+			}
+		}
+		next := end
+		if end >= len(keys) {
+			next = 0
+		}
+		c.WriteLen(2)
+		c.WriteBulk(strconv.Itoa(next))
+		c.WriteLen(len(out))
+		for _, k := range out {
+			c.WriteBulk(k)
+		}
+		return true
+	}
 }
